@@ -260,12 +260,13 @@ func v2scenarios(thorough bool) []v2scenario {
 		{Name: "W2-two-rings", Preseed: map[string]int{"alpha_1": 1, "bravo_2": 1}, Threads: [][]v2op{{opGenerate(idA)}, {opGenerate(idB)}}},
 		{Name: "W3-add-add-read", Preseed: map[string]int{"alpha_1": 1}, Threads: [][]v2op{{opGenerate(idA)}, {opGenerate(idA)}, {opReadAll(idA), opReadCurrent(idA)}}},
 		{Name: "R2-read-read", Preseed: map[string]int{"alpha_1": 2}, Threads: [][]v2op{{opReadAll(idA)}, {opReadAll(idA)}}},
+		// one writer adds twice while the other still works from the ring it opened before
+		{Name: "W2-addadd-add", Preseed: map[string]int{"alpha_1": 1}, Threads: [][]v2op{{opGenerate(idA), opGenerate(idA)}, {opGenerate(idA)}}},
 		{Name: "W2-add-add-fault", Preseed: map[string]int{"alpha_1": 1}, Threads: [][]v2op{{opGenerate(idA), opReadAll(idA)}, {opGenerate(idA)}}, Fault: true},
 	}
 	if thorough {
 		sc = append(sc,
 			v2scenario{Name: "W3-add-add-add", Preseed: map[string]int{"alpha_1": 1}, Threads: [][]v2op{{opGenerate(idA)}, {opGenerate(idA)}, {opGenerate(idA)}}},
-			v2scenario{Name: "W2-addadd-add", Preseed: map[string]int{"alpha_1": 1}, Threads: [][]v2op{{opGenerate(idA), opGenerate(idA)}, {opGenerate(idA)}}},
 			v2scenario{Name: "W3-add-destroy-read", Preseed: map[string]int{"alpha_1": 2}, Threads: [][]v2op{{opGenerate(idA)}, {opDestroyRotated(idA, 2)}, {opReadCurrent(idA)}}},
 		)
 	}
